@@ -11,6 +11,7 @@
 #ifdef VERIF_COVERAGE
 extern "C" void __gcov_dump(void);  // coverage build only (check/coverage.py)
 #endif
+#include <cstdlib>
 #include <sys/wait.h>
 #include <unistd.h>
 
@@ -391,7 +392,7 @@ main()
       if (pid == 0) {
         // wall-clock guard: code of the implementation that never reaches a scheduling point again
         // (e.g. a loop over plain memory that does not terminate) cannot be preempted by the baton scheduler
-        alarm(20);
+        alarm(std::getenv("VERIF_ALARM") ? static_cast<unsigned>(std::atoi(std::getenv("VERIF_ALARM"))) : 20U);
         run_child(sc);
 #ifdef VERIF_COVERAGE
         __gcov_dump();
